@@ -62,7 +62,7 @@ CHECKS = {
     "Coq proofs for all provider masks + differential correspondence + closed-form / finite-difference oracle"),
  "C05": C("proof",
     "Theorems over R for arbitrary psi, grad psi and direction vectors: leaving the line search with tau>0 IS the sufficient decrease with the strictness factor; QUB at the reported iterate gives envelope descent by (1-gamma L)/(2 gamma)|p|^2 for ANY new step size (vector level, any box); trust-region acceptance gives non-increase; any number of backtracking steps keeps gamma L and never increases gamma. "
-    "The decision kernels of EACH solver file (fbe, qub_violated, linesearch_violated, step-size halving, tau update, PANTR ratio/radius) are TRANSLATED from the source on every run (KernelsGen.v), proved equal to the hand kernels (KernelsGenEq.v) and run at binary64 against the implementation; whole-loop models of PANOC/ZeroFPR/PANTR (descent between consecutive records proved for every oracle) tied by whole-run correspondence. "
+    "The decision kernels of EACH solver file (fbe, qub_violated, linesearch_violated, step-size halving, tau update, PANTR ratio/radius) are TRANSLATED from the source on every run (KernelsGen.v), proved equal to the hand kernels (KernelsGenEq.v) and run at binary64 against the implementation; whole-loop models of PANOC/ZeroFPR/PANTR (descent between consecutive records proved for every oracle) tied by whole-run correspondence; the SHIPPED direction providers (L-BFGS, structured L-BFGS, Anderson, no-op) are modelled as state machines inside the loops (PanocDir.v, ZeroFprDir.v), proved to refine the oracle models, and whole runs of the real shipped stacks coincide with them at binary64. "
     "Correspondence (fbe, prox step, line-search and QUB decisions, halving, candidate point) on callback records of PANOC/ZeroFPR/PANTR runs incl. a scripted direction provider forcing every branch; oracle: the inequalities on consecutive records.",
     "4/C05", TB_REALS + CORR + "inequalities on doubles checked with 256 eps slack; stated for recompute_last_prox_step_after_stepsize_change=false (the option rewrites the reported iterate); force_linesearch skips the test by construction.",
     "Translator-generated decision kernels + Coq proofs over R (kernels and whole-loop models) + whole-run and teacher-forced correspondence + inequality oracle"),
